@@ -3,12 +3,13 @@ import FimVerif.Proofs.Lemmas.C16Regex
 import FimVerif.Proofs.Lemmas.C16Validate
 import FimVerif.Proofs.Lemmas.C16Misc
 import FimVerif.Proofs.Lemmas.C16Domain
+import FimVerif.Proofs.Lemmas.C16Entry
 /-!
 C16 - label, tag, name and data validation holds on every construction path.
 Property theorems only; lemmas are in Proofs/Lemmas/C16*.lean.
 -/
 namespace FimVerif.C16
-open FimVerif.Regex FimVerif.V16 FimVerif.Gen.Validators
+open FimVerif.Regex FimVerif.V16 FimVerif.Gen.Validators FimVerif.Gen.EntryPoints
 
 /-- The derivative matcher decides the denotational language - all regexes, all strings, no bound. -/
 theorem matches_iff (r : Re) (s : List Char) : r.matches s = true ↔ r.L s := by
@@ -113,7 +114,7 @@ theorem stored_list_in_domain (p : Path) (base : LObj) (kw : List (String × Val
   have h1 : ItemOk k i := accept_sound p base kw o' hb h (k, .list xs) hm i hi
   cases i with
   | str s => exact ⟨s, rfl, h1.1 r hr⟩
-  | other => exact absurd h1.1 (by rw [hr]; simp)
+  | other => exact h1.elim
 
 /-- non-vacuity: a concrete non-trivial accepted call and a rejected near-miss -/
 example : enter .ctor defaultObj [("vlan", .list [.str ['1'], .str ['4','0','9','6']])] =
@@ -414,5 +415,315 @@ theorem accept_complete_many (p : Path) (hp : p = .ctor ∨ p = .setf ∨ p = .u
 /-- The defect that was in the code, for every regex: anchoring with `$` admits each member followed by a newline. -/
 theorem dollar_admits_trailing_newline (r : Re) (w : List Char) (h : r.L w) : accepts .pyDollar r (w ++ ['\n']) = true :=
   (accepts_dollar_iff r _).mpr (Or.inr ⟨w, rfl, h⟩)
+
+/-! ## Wrong types and unknown keys (the sibling entry points of the validators) -/
+
+/-- In every field - also the free-form ones without a format - a stored list holds strings only
+(`all(isinstance(i, str) for i in v)`, /repo a35e907): an int VLAN, bytes, a nested list cannot arrive inside a list. -/
+theorem stored_list_all_strings (p : Path) (base : LObj) (kw : List (String × Val)) (o' : LObj)
+    (hb : Valid base) (h : enter p base kw = .ok o') (k : String) (xs : List Item) (hm : (k, Val.list xs) ∈ o') :
+    ∀ i ∈ xs, ∃ s, i = .str s := by
+  intro i hi
+  have h1 : ItemOk k i := accept_sound p base kw o' hb h (k, .list xs) hm i hi
+  cases i with
+  | str s => exact ⟨s, rfl⟩
+  | other => exact h1.elim
+
+/-- a value that is neither None, a str nor a list (int, bytes, dict, …) is never stored, whatever the key -/
+theorem wrong_type_rejected (fg : Bool) (o : LObj) (k : String) : setField fg o k .other = .error "assertion" := rfl
+
+/-- a key that is not a label field (`k in self.__dict__`, /repo 962c571 - not: any attribute of the class) is rejected by the
+strict paths and skipped by from_json; it never creates an entry -/
+theorem unknown_field_rejected (o : LObj) (k : String) (v : Val) (hk : labelFields.contains k = false) :
+    ∃ e, setField false o k v = .error e := by
+  unfold setField
+  cases v with
+  | none => exact ⟨_, rfl⟩
+  | other => exact ⟨_, rfl⟩
+  | str s => simp only [Val.hasOther, Bool.false_eq_true, if_false, hk]; exact ⟨_, rfl⟩
+  | list xs =>
+    simp only [hk, Bool.false_eq_true, if_false]
+    cases (Val.list xs).hasOther <;> exact ⟨_, rfl⟩
+
+theorem setKey_keys (k : String) (v : Val) : ∀ (o : LObj), (setKey k v o).map (·.1) = o.map (·.1) := by
+  intro o
+  induction o with
+  | nil => rfl
+  | cons a t ih =>
+    obtain ⟨k', v'⟩ := a
+    simp only [setKey]
+    split
+    · rfl
+    · simp only [List.map_cons, ih]
+
+/-- No call, strict or forgiving, with whatever keyword names, ever adds a key: the fields of a Labels object are the ones
+its constructor created. -/
+theorem keys_invariant (fg : Bool) : ∀ (kw : List (String × Val)) (o o' : LObj), setFields fg o kw = .ok o' →
+    o'.map (·.1) = o.map (·.1) := by
+  intro kw
+  induction kw with
+  | nil => intro o o' h; simp only [setFields, pure, Except.pure, Except.ok.injEq] at h; rw [h]
+  | cons a t ih =>
+    intro o o' h
+    obtain ⟨k, v⟩ := a
+    simp only [setFields] at h
+    cases h1 : setField fg o k v with
+    | error e => simp [h1] at h
+    | ok o1 =>
+      simp only [h1] at h
+      rw [ih o1 o' h]
+      unfold setField at h1
+      cases v with
+      | none => simp [throw, throwThe, MonadExceptOf.throw] at h1
+      | other => simp [throw, throwThe, MonadExceptOf.throw] at h1
+      | str s =>
+        simp only [Val.hasOther, Bool.false_eq_true, if_false] at h1
+        split at h1
+        · cases hr : checkRegex k (.str s) with
+          | error e => simp [hr] at h1
+          | ok u =>
+            cases hc : checkRange k (.str s) with
+            | error e => simp [hr, hc] at h1
+            | ok u' => simp only [hr, hc, pure, Except.pure, Except.ok.injEq] at h1; rw [← h1]; exact setKey_keys k _ o
+        · split at h1
+          · simp only [pure, Except.pure, Except.ok.injEq] at h1; rw [h1]
+          · simp [throw, throwThe, MonadExceptOf.throw] at h1
+      | list xs =>
+        cases hno : (Val.list xs).hasOther with
+        | true => simp [hno, throw, throwThe, MonadExceptOf.throw] at h1
+        | false =>
+          simp only [hno, Bool.false_eq_true, if_false] at h1
+          split at h1
+          · cases hr : checkRegex k (.list xs) with
+            | error e => simp [hr] at h1
+            | ok u =>
+              cases hc : checkRange k (.list xs) with
+              | error e => simp [hr, hc] at h1
+              | ok u' => simp only [hr, hc, pure, Except.pure, Except.ok.injEq] at h1; rw [← h1]; exact setKey_keys k _ o
+          · split at h1
+            · simp only [pure, Except.pure, Except.ok.injEq] at h1; rw [h1]
+            · simp [throw, throwThe, MonadExceptOf.throw] at h1
+
+example : enter .ctor defaultObj [("local_name", .list [.str ['a'], .other])] = .error "assertion" := by rfl
+example : enter .ctor defaultObj [("to_json", .str ['x'])] = .error "label" := by rfl
+example : enter .json defaultObj [("VALIDATORS", .str ['x']), ("vlan", .str ['7'])] = .ok (setKey "vlan" (.str ['7']) defaultObj) := by rfl
+
+/-! ## Every entry point reaches the validator
+
+The tables are regenerated from the source on every run (gen/entrypoints.py): `stores` is the closed-world list of statements
+that write a validated value (sliver field, Labels field, tag list, JSON text, element name, graph property), each with the
+check that dominates it; `entryPoints` the public functions that take such a value, with the guarded writers their value
+reaches in the (selector- and receiver-sensitive) call graph. -/
+
+/-- No statement of fim/user, fim/slivers or the decode functions stores a name, labels value, tag, boot script or JSON blob
+without a recognised validating guard in front of it. (`self._name = new_name` in rename(), `ret.tags = d` in Tags.from_json,
+`sliver.resource_name = ..`, a `setattr` in set_properties … are all "unguarded" rows.) -/
+theorem every_store_guarded : ∀ s ∈ stores, acceptedGuards.contains s.guard = true := by decide
+
+/-- Every public function that takes a name / labels / tags / boot script / JSON blob / property dictionary reaches, for each
+such parameter, the guarded writer of that domain (all of them for `**kwargs` and decoded dictionaries), reaches no unguarded
+store, and everything it reaches that stores is a guarded writer. -/
+theorem every_entry_point_validated : ∀ e ∈ entryPoints, entryOk e = true := by decide
+
+/-- … and has a behavioural probe in the harness (or is the abstract constructor). -/
+theorem every_entry_point_probed : ∀ e ∈ entryPoints, (e.probed || e.fn == "ModelElement.__init__") = true := by decide
+
+/-- the writers whose control flow Model/Validate16.lean mirrors are among the guarded ones -/
+theorem modelled_writers_guarded : ∀ w ∈ modelledWriters, guardedWriters.contains w = true := by decide
+
+/-! ## Names of existing elements, over every history of rename / assignment / set_property / set_properties -/
+
+/-- Whatever sequence of name rewrites (any entry point, any values, accepted or rejected) is applied to an element whose
+stored name is in its class's pattern, the stored name stays in the pattern. -/
+theorem elem_name_invariant (e : Elem) (r : Re) (hr : nameRe.lookup e.cls = some r) (h0 : r.L e.name)
+    (ops : List (NameEntry × Val)) : r.L (runElem e ops).name :=
+  (runElem_inv anchors_full.2.2.2 ops e r hr h0).2
+
+/-- A rejected rewrite changes nothing; an accepted one stores exactly the string given. -/
+theorem elem_step_exact (e : Elem) (op : NameEntry × Val) :
+    (∀ x, setName e.cls op.2 = .error x → stepElem e op = e) ∧
+    (∀ s, setName e.cls op.2 = .ok s → (stepElem e op).name = s ∧ op.2 = .str s) := by
+  constructor
+  · intro x hx; simp [stepElem, hx]
+  · intro s hs
+    refine ⟨?_, (setName_ok anchors_full.2.2.2 hs).1⟩
+    unfold stepElem; rw [hs]; cases op.1 <;> rfl
+
+/-- Through rename() and the `name` property the element object never answers with a name the graph did not accept
+(the order of /repo ee3a7fa: validate, then update the cached name). -/
+theorem elem_handle_follows_store (e : Elem) (h : e.handle = e.name) (ops : List (NameEntry × Val))
+    (hops : ∀ op ∈ ops, op.1 = .rename ∨ op.1 = .assign) : (runElem e ops).handle = (runElem e ops).name :=
+  runElem_handle ops e h hops
+
+example : (runElem ⟨"NodeSliver", ['n','1'], ['n','1']⟩ [(.rename, .str ['a',' ','b']), (.assign, .str ['o','k']), (.setProperty, .str ['x'])]).name
+    = ['o','k'] := by rfl
+
+/-! ## Names derived from a name parameter (the known finding, stated exactly)
+
+`Node.add_component` for a catalogue model with interfaces also names a network service `<node>-<name>-l2ovs` / `-l2p4`
+and interfaces `<name>-<port>`; `Topology.add_facility` a service `<name>-ns` and an interface `<name>-int`;
+`Topology.add_switch` a service `<name>-ns`. The idioms and suffixes are read from the source (table `derived`). -/
+
+/-- Exactly when such an entry point accepts a name: its own pattern and every derived name's pattern. -/
+theorem create_accept_iff (own kind variant : String) (parent s : List Char) (r : Re) (hr : nameRe.lookup own = some r)
+    (hd : ∀ d ∈ derivedFor kind variant, (nameRe.lookup d.cls).isSome = true) :
+    createNamed own kind variant parent (.str s) = .ok s ↔
+      r.L s ∧ ∀ d ∈ derivedFor kind variant, ∀ rd, nameRe.lookup d.cls = some rd → rd.L (derivedName parent s d) := by
+  rw [createNamed_ok_iff, name_accept_iff own r hr s]
+  constructor
+  · rintro ⟨h1, h2⟩
+    exact ⟨h1, fun d hd' rd hrd => (name_accept_iff d.cls rd hrd _).mp (h2 d hd')⟩
+  · rintro ⟨h1, h2⟩
+    refine ⟨h1, fun d hd' => ?_⟩
+    obtain ⟨rd, hrd⟩ := Option.isSome_iff_exists.mp (hd d hd')
+    exact (name_accept_iff d.cls rd hrd _).mpr (h2 d hd' rd hrd)
+
+/-- every derived name is checked against a class that has a NAME_REGEX -/
+theorem derived_classes_known : ∀ d ∈ derived, (nameRe.lookup d.cls).isSome = true := by decide
+
+/-- The service name derived from a valid node name `p` and a valid component name `n` is a valid service name iff `n` has
+no space and the whole thing fits in 255 characters - for every suffix made of service-name characters. -/
+theorem derived_service_name_iff (p n suf : List Char) (hp : nameRe_NodeSliver.L p) (hn : nameRe_ComponentSliver.L n)
+    (hs : ∀ c ∈ suf, nsCh c = true) :
+    nameRe_NetworkServiceSliver.L (p ++ ['-'] ++ n ++ suf) ↔ ' ' ∉ n ∧ p.length + 1 + n.length + suf.length ≤ 255 := by
+  obtain ⟨hp1, hp2, hp3⟩ := (node_L p).mp hp
+  obtain ⟨hn1, hn2, hn3⟩ := (comp_L n).mp hn
+  rw [ns_L]
+  simp only [List.length_append, List.length_cons, List.length_nil, List.mem_append, List.mem_cons, List.not_mem_nil, or_false]
+  constructor
+  · rintro ⟨_, h2, h3⟩
+    refine ⟨fun hmem => ?_, by omega⟩
+    have := h3 ' ' (Or.inl (Or.inr hmem))
+    revert this; decide
+  · rintro ⟨h1, h2⟩
+    refine ⟨by omega, by omega, ?_⟩
+    rintro c (((hc | hc) | hc) | hc)
+    · exact nodeCh_nsCh (hp3 c hc)
+    · subst hc; decide
+    · exact (compCh_nsCh (hn3 c hc)).mpr (fun h => h1 (h ▸ hc))
+    · exact hs c hc
+
+/-- the suffixes the code uses are made of service-name characters -/
+theorem derived_service_suffixes_ok : ∀ d ∈ derived, d.cls = "NetworkServiceSliver" → ∀ c ∈ d.suffix.toList, nsCh c = true := by
+  decide
+
+/-- Full statement that does NOT hold: "every name of ComponentSliver's pattern is accepted by add_component".
+Counterexample (replayed on the implementation by corpus/C16/component_name.json): `a b` under node `n1`, SharedNIC. -/
+theorem component_name_rejected_counterexample :
+    setName "ComponentSliver" (.str ['a',' ','b']) = .ok ['a',' ','b'] ∧
+    setName "NodeSliver" (.str ['n','1']) = .ok ['n','1'] ∧
+    createNamed "ComponentSliver" "component" "SharedNIC_ConnectX_6" ['n','1'] (.str ['a',' ','b']) = .error "value" := by
+  refine ⟨by rfl, by rfl, by rfl⟩
+
+/-- … and the strongest guarded version: a component name without a space that leaves room for `<node>-` and the suffix
+is accepted (service name and every interface name included), for every catalogue model with interfaces. -/
+theorem component_name_accepted_partial (variant : String) (p n : List Char)
+    (_hv : derivedFor "component" variant ≠ [])
+    (hp : nameRe_NodeSliver.L p) (hn : nameRe_ComponentSliver.L n) (hsp : ' ' ∉ n) (hlen : p.length + n.length + 7 ≤ 255) :
+    createNamed "ComponentSliver" "component" variant p (.str n) = .ok n := by
+  have hown : nameRe.lookup "ComponentSliver" = some nameRe_ComponentSliver := by rfl
+  have hdk : ∀ d ∈ derivedFor "component" variant, (nameRe.lookup d.cls).isSome = true :=
+    fun d hd => derived_classes_known d (List.mem_filter.mp hd).1
+  rw [create_accept_iff _ _ _ _ _ _ hown hdk]
+  refine ⟨hn, fun d hd rd hrd => ?_⟩
+  obtain ⟨hmem, hkv⟩ := List.mem_filter.mp hd
+  have hshape : ∀ d ∈ derived, d.kind = "component" →
+      (d.cls = "NetworkServiceSliver" ∧ d.withParent = true ∧ d.suffix.toList.length ≤ 6) ∨
+      (d.cls = "InterfaceSliver" ∧ d.withParent = false ∧ d.suffix.toList.length = 3 ∧ ∀ c ∈ d.suffix.toList, ifCh c = true) := by
+    decide
+  have hk : d.kind = "component" := by
+    have := hkv; simp only [Bool.and_eq_true, beq_iff_eq] at this; exact this.1
+  obtain ⟨hn1, hn2, hn3⟩ := (comp_L n).mp hn
+  rcases hshape d hmem hk with ⟨hc, hw, hl⟩ | ⟨hc, hw, hl, hch⟩
+  · have : rd = nameRe_NetworkServiceSliver := by
+      rw [hc] at hrd; have h' : nameRe.lookup "NetworkServiceSliver" = some nameRe_NetworkServiceSliver := by rfl
+      rw [h'] at hrd; exact (Option.some.inj hrd).symm
+    subst this
+    have hd' := (derived_service_name_iff p n d.suffix.toList hp hn (derived_service_suffixes_ok d hmem hc)).mpr ⟨hsp, by omega⟩
+    simpa [derivedName, hw] using hd'
+  · have : rd = nameRe_InterfaceSliver := by
+      rw [hc] at hrd; have h' : nameRe.lookup "InterfaceSliver" = some nameRe_InterfaceSliver := by rfl
+      rw [h'] at hrd; exact (Option.some.inj hrd).symm
+    subst this
+    rw [if_L]
+    simp only [derivedName, hw, List.nil_append, List.length_append, List.mem_append, Bool.false_eq_true, if_false]
+    refine ⟨by omega, by omega, ?_⟩
+    rintro c (hc' | hc')
+    · exact compCh_ifCh (hn3 c hc')
+    · exact hch c hc'
+
+example : derivedFor "component" "SharedNIC_ConnectX_6" ≠ [] := by decide
+
+/-- A facility name: NodeSliver's pattern and at most 251 characters (room for `-int`); a switch name: at most 252 (`-ns`).
+So the longest valid node names are rejected by add_facility / add_switch. -/
+theorem facility_name_iff (s : List Char) (hs : nameRe_NodeSliver.L s) :
+    (createNamed "NodeSliver" "facility" "" [] (.str s) = .ok s ↔ s.length ≤ 251) ∧
+    (createNamed "NodeSliver" "switch" "" [] (.str s) = .ok s ↔ s.length ≤ 252) := by
+  have hown : nameRe.lookup "NodeSliver" = some nameRe_NodeSliver := by rfl
+  have hns : nameRe.lookup "NetworkServiceSliver" = some nameRe_NetworkServiceSliver := by rfl
+  have hif : nameRe.lookup "InterfaceSliver" = some nameRe_InterfaceSliver := by rfl
+  have hf : derivedFor "facility" "" = [⟨"facility", "", "NetworkServiceSliver", false, "-ns"⟩, ⟨"facility", "", "InterfaceSliver", false, "-int"⟩] := by decide
+  have hw : derivedFor "switch" "" = [⟨"switch", "", "NetworkServiceSliver", false, "-ns"⟩] := by decide
+  obtain ⟨h1, h2, h3⟩ := (node_L s).mp hs
+  have hnsL : ∀ (_ : Nat), nameRe_NetworkServiceSliver.L (s ++ ['-','n','s']) ↔ s.length + 3 ≤ 255 := by
+    intro _
+    rw [ns_L]
+    simp only [List.length_append, List.length_cons, List.length_nil, List.mem_append]
+    constructor
+    · rintro ⟨_, h, _⟩; omega
+    · intro h
+      refine ⟨by omega, by omega, ?_⟩
+      rintro c (hc | hc)
+      · exact nodeCh_nsCh (h3 c hc)
+      · revert c; decide
+  have hifL : nameRe_InterfaceSliver.L (s ++ ['-','i','n','t']) ↔ s.length + 4 ≤ 255 := by
+    rw [if_L]
+    simp only [List.length_append, List.length_cons, List.length_nil, List.mem_append]
+    constructor
+    · rintro ⟨_, h, _⟩; omega
+    · intro h
+      refine ⟨by omega, by omega, ?_⟩
+      rintro c (hc | hc)
+      · exact nodeCh_ifCh (h3 c hc)
+      · revert c; decide
+  constructor
+  · rw [create_accept_iff _ _ _ _ _ _ hown (fun d hd => derived_classes_known d (List.mem_filter.mp hd).1), hf]
+    constructor
+    · rintro ⟨_, h⟩
+      have := (hifL).mp (by simpa [derivedName] using h _ (List.mem_cons_of_mem _ (List.mem_cons_self ..)) _ hif)
+      omega
+    · intro h
+      refine ⟨hs, ?_⟩
+      intro d hd rd hrd
+      simp only [List.mem_cons, List.mem_nil_iff, or_false] at hd
+      rcases hd with rfl | rfl
+      · rw [hns] at hrd; cases hrd; simpa [derivedName] using (hnsL 0).mpr (by omega)
+      · rw [hif] at hrd; cases hrd; simpa [derivedName] using hifL.mpr (by omega)
+  · rw [create_accept_iff _ _ _ _ _ _ hown (fun d hd => derived_classes_known d (List.mem_filter.mp hd).1), hw]
+    constructor
+    · rintro ⟨_, h⟩
+      have := (hnsL 0).mp (by simpa [derivedName] using h _ (List.mem_cons_self ..) _ hns)
+      omega
+    · intro h
+      refine ⟨hs, ?_⟩
+      intro d hd rd hrd
+      simp only [List.mem_cons, List.mem_nil_iff, or_false] at hd
+      subst hd
+      rw [hns] at hrd; cases hrd; simpa [derivedName] using (hnsL 0).mpr (by omega)
+
+/-- the counterexample side for facilities: a 253-character node name -/
+theorem facility_name_rejected_counterexample :
+    nameRe_NodeSliver.L (List.replicate 253 'a') ∧
+    createNamed "NodeSliver" "facility" "" [] (.str (List.replicate 253 'a')) ≠ .ok (List.replicate 253 'a') := by
+  have hL : nameRe_NodeSliver.L (List.replicate 253 'a') := by
+    rw [node_L]
+    refine ⟨by rw [List.length_replicate]; omega, by rw [List.length_replicate]; omega, ?_⟩
+    intro c hc
+    have := List.eq_of_mem_replicate hc
+    subst this; decide
+  refine ⟨hL, fun h => ?_⟩
+  have := ((facility_name_iff _ hL).1).mp h
+  rw [List.length_replicate] at this; omega
+
 
 end FimVerif.C16
